@@ -16,6 +16,9 @@ import sys
 from . import common
 
 
+TEXTS = {}
+
+
 def hexs(s):
     return binascii.hexlify(s.encode("utf-8")).decode()
 
@@ -143,15 +146,26 @@ def run(ck):
             j = ck.rng.randrange(len(ops))
             oplists.append(("sublist", i, ops[:j] + ops[j + 1:]))
             oplists.append(("superlist-dup", i, ops + [ops[j]]))
-        if ck.tier == "thorough" or ck.rng.random() < 0.25:
-            # operations re-created from their x,y,z text form
-            txt = [xyz_text(o) for o in sh]
-            oplists.append(("from-text", i, [getSymOp(t) for t in txt]))
+        # operations re-created from their x,y,z text form, in several equivalent spellings
+        for style in ((0, 1, 2, 3) if ck.tier == "thorough" else (i % 4,)):
+            txt = [xyz_text(o, style) for o in sh]
+            try:
+                parsed = [getSymOp(t) for t in txt]
+                TEXTS[id(parsed)] = txt
+                oplists.append(("from-text", i, parsed))
+            except Exception as e:
+                ck.fail("symop-text:%s" % type(e).__name__, "getSymOp rejects %r (style %d of an operation of #%s): %r" % (txt[0], style, g.number, e),
+                        {"kind": "input", "stream": "text", "texts": txt[:3]})
+        if len(ops) <= 8 or ck.rng.random() < 0.15:
+            oplists.append(("mutated-after-lookup", i, None))
         extra = sgl[(i * 7 + 3) % len(sgl)].symop_list[-1]
         if all(str(extra) != str(o) for o in ops):
             oplists.append(("superlist-foreign", i, ops + [extra]))
     op_lines = []
     for kind, i, ops in oplists:
+        if ops is None:
+            op_lines.append(None)
+            continue
         try:
             ints = [v for o in ops for v in op_ints(o)]
             op_lines.append("lookup.find " + " ".join(map(str, ints)))
@@ -231,6 +245,12 @@ def run(ck):
     for (kind, i, ops), ln in zip(oplists, op_lines):
         nfind += 1
         ck.coverage["evaluations"] += 1
+        if kind == "mutated-after-lookup":
+            prob = mutate_after_lookup(ck, sgl[i], tabulated, FindSpaceGroup, SymOp)
+            if prob:
+                ck.fail("find:mutated:%s" % sgl[i].number, "FindSpaceGroup on operation objects of #%s edited after a first lookup: %s" % (sgl[i].number, prob[0]),
+                        {"kind": "input", "stream": "mutated", "setting_pos": i, "detail": prob[0], "edit": prob[1]})
+            continue
         repl = {"kind": "input", "stream": "find", "variant": kind, "setting_pos": i, "ops": [list(op_ints(o)) for o in ops] if ln else None}
         try:
             g = FindSpaceGroup(ops)
@@ -244,6 +264,15 @@ def run(ck):
             continue
         fp = tuple(sorted(str(o) for o in ops))
         should = fp in tabulated  # independent of the hashing in FindSpaceGroup
+        if kind == "from-text" and not should:
+            # the text forms were rendered from the tabulated operations of setting i: reading them back must give that set
+            want = sorted(str(o) for o in sgl[i].symop_list)
+            badop = [str(o).replace("\n", " ") for o in ops if str(o) not in want][:1]
+            ck.fail("find:from-text:%s" % sgl[i].number, "operations of #%s re-read from their x,y,z text are not the tabulated ones (e.g. %s)" % (sgl[i].number, badop),
+                    dict(repl, stream="find-text", texts=TEXTS.get(id(ops))))
+            if ln and it is not None:
+                next(it)
+            continue
         if should and tabulated[fp] != i:
             i = tabulated[fp]  # e.g. the identity alone, left over from a 2-operation group, is P1
             kind = kind + "=other-setting"
@@ -295,6 +324,36 @@ def run(ck):
                 {"kind": "proof-obligation", "theorem": info_l["failed_modules"], "errors": info_l["errors"]}, no_failing_input=True)
 
 
+def mutate_after_lookup(ck, g, tabulated, FindSpaceGroup, SymOp, edit=None):
+    """Look the list up, edit one operation object in place, look it up again: the second answer must be that of
+    fresh objects with the edited values (an identification that remembers the first printable form is wrong)."""
+    import numpy
+
+    ops = [SymOp(numpy.array(o.R, dtype=float), numpy.array(o.t, dtype=float)) for o in g.symop_list]
+    try:
+        first = FindSpaceGroup(ops)
+    except ValueError:
+        return ("the unedited copy of the tabulated list is not found", None)
+    if edit is None:
+        j = ck.rng.randrange(len(ops))
+        ax = ck.rng.randrange(3)
+        edit = [j, ax, ck.rng.choice([0.25, 0.5, 1.0 / 3])]
+    j, ax, dt = edit
+    ops[j].t[ax] = (ops[j].t[ax] + dt) % 1.0
+    fresh = [SymOp(numpy.array(o.R, dtype=float), numpy.array(o.t, dtype=float)) for o in ops]
+    fp = tuple(sorted(str(o) for o in fresh))
+    exp = tabulated.get(fp)
+    try:
+        got = FindSpaceGroup(ops).number
+    except ValueError:
+        got = None
+    expn = None if exp is None else exp
+    if (got is None) != (expn is None):
+        return ("edited list %s, FindSpaceGroup %s" % ("is not tabulated" if expn is None else "is a tabulated set",
+                                                         "still returns #%s" % got if got is not None else "fails"), edit)
+    return None
+
+
 def documented(v, sgl, aliases):
     """Identifiers the function is documented to answer to: numbers, exact names, case variants, blanks
     inside short names, outer blanks, aliases."""
@@ -316,8 +375,10 @@ def documented(v, sgl, aliases):
     return any(nb.lower() == a.lower() for a, hm in aliases)
 
 
-def xyz_text(o):
-    """x,y,z text of an operation (rows of R with entries in {-1,0,1}, translations k/24)."""
+def xyz_text(o, style=0):
+    """x,y,z text of an operation (rows of R with entries in {-1,0,1}, translations k/24).
+    style 0: 'x+1/2'; 1: negative constants 'x-1/2' (same operation modulo lattice translations);
+    2: constant first '1/2+x'; 3: decimals and capitals 'X+0.5' where exact, shifted by whole cells."""
     from fractions import Fraction
 
     rows = []
@@ -332,34 +393,115 @@ def xyz_text(o):
             elif c != 0:
                 terms += "%+d*%s" % (c, s)
         t = Fraction(float(o.t[i])).limit_denominator(24)
-        if t != 0:
-            terms += "+%d/%d" % (t.numerator, t.denominator)
-        rows.append(terms.lstrip("+") or "0")
-    return ",".join(rows)
+        body = terms.lstrip("+")
+        if style == 1 and t != 0:
+            t = t - 1
+        if style == 3 and t != 0:
+            t = t + (i % 2)
+        if t == 0:
+            rows.append(body or "0")
+        elif style == 2:
+            cst = "%d/%d" % (t.numerator, t.denominator)
+            rows.append(cst + (("+" + body) if body and not body.startswith("-") else body))
+        elif style == 3 and t.denominator in (1, 2, 4, 8):
+            rows.append((body.upper() + "%+g" % float(t)) if body else "%g" % float(t))
+        else:
+            rows.append(body + "%+d/%d" % (t.numerator, t.denominator))
+    return (" , " if style == 3 else ",").join(rows)
 
 
 def replay(path):
     common.use_repo()
+    sys.path.insert(0, common.VERIF)
     r = json.load(open(path))
-    import diffpy.structure.spacegroups as S
-    from diffpy.structure.spacegroups import FindSpaceGroup, GetSpaceGroup, SymOp
     import numpy
 
+    import diffpy.structure.spacegroups as S
+    from diffpy.structure.parsers.p_cif import getSymOp
+    from diffpy.structure.spacegroups import FindSpaceGroup, GetSpaceGroup, IsSpaceGroupIdentifier, SymOp
+    from translate import lookup as tl
+
+    sgl = list(S.SpaceGroupList)
+    tabulated = {}
+    for j, g in enumerate(sgl):
+        tabulated.setdefault(tuple(sorted(str(o) for o in g.symop_list)), j)
     if r.get("stream") == "find":
         ops = [SymOp(numpy.array(o[:9], dtype=float).reshape(3, 3), numpy.array(o[9:], dtype=float) / 24.0) for o in r["ops"]]
+        exp = tabulated.get(tuple(sorted(str(o) for o in ops)))
         try:
             g = FindSpaceGroup(ops)
-            print("FindSpaceGroup ->", g.number)
-        except ValueError as e:
-            print("FindSpaceGroup -> ValueError", e)
-        print("(variant %s of the setting at position %s)" % (r["variant"], r["setting_pos"]))
+            got = g.number
+        except ValueError:
+            g, got = None, None
+        print("FindSpaceGroup ->", got, "; expected", None if exp is None else sgl[exp].number)
+        if (got is None) != (exp is None):
+            return 1
+        if g is not None:
+            if sorted(str(o) for o in g.symop_list) != sorted(str(o) for o in ops):
+                return 1
+            if r.get("variant", "").startswith("same") and g is not sgl[exp]:
+                return 1
+            if FindSpaceGroup(ops, shuffle=True) is not sgl[exp]:
+                return 1
+        return 0
+    if r.get("stream") == "find-text":
+        want = sorted(str(o) for o in sgl[r["setting_pos"]].symop_list)
+        try:
+            got = sorted(str(getSymOp(t)) for t in r["texts"])
+        except Exception as e:
+            print("getSymOp raised", repr(e))
+            return 1
+        print("re-read operations equal the tabulated ones:", got == want)
+        if got != want:
+            return 1
+        try:
+            g = FindSpaceGroup([getSymOp(t) for t in r["texts"]])
+        except ValueError:
+            return 1
+        return 0 if g.number == sgl[r["setting_pos"]].number else 1
+    if r.get("stream") == "mutated":
+        import random
+
+        class CK:
+            rng = random.Random(0)
+
+        prob = mutate_after_lookup(CK, sgl[r["setting_pos"]], tabulated, FindSpaceGroup, SymOp, edit=r.get("edit"))
+        print("problem:", prob)
+        return 1 if prob else 0
+    if r.get("stream") == "text":
+        try:
+            for t in r["texts"]:
+                getSymOp(t)
+        except Exception as e:
+            print("getSymOp raised", repr(e))
+            return 1
+        return 0
+    if "identifier" not in r:
+        print("replay names a proof obligation / correspondence stream, nothing to execute:", r.get("theorem"))
         return 1
     v = r["identifier"]
     if r.get("idtype") == "int":
         v = int(v)
+    info = tl.read_build_function()
+    aliases = info["aliases"] or []
+    pos_of = {id(g): i for i, g in enumerate(sgl)}
     try:
         g = GetSpaceGroup(v)
+        res = pos_of.get(id(g), -1)
         print("GetSpaceGroup(%r) -> #%s %s / %s" % (v, g.number, g.short_name, g.pdb_name))
+    except ValueError as e:
+        res = None
+        print("GetSpaceGroup(%r) -> ValueError" % (v,))
     except Exception as e:
         print("GetSpaceGroup(%r) -> %r" % (v, e))
-    return 1
+        return 1
+    bad = False
+    if res is not None and (res < 0 or not carries(sgl[res], v, aliases)):
+        bad = True
+    if isinstance(v, int) and res is not None and sgl[res].number != v:
+        bad = True
+    if res is None and documented(v, sgl, aliases):
+        bad = True
+    if IsSpaceGroupIdentifier(v) != (res is not None):
+        bad = True
+    return 1 if bad else 0
